@@ -176,7 +176,7 @@ def check(run):
     run.rule = ('real RFM.fit in float64 on distinct random rows (n 8..60), every CPU kernel x diag/full x solver x lambda x '
                 'iters 0..5 x return_best/early-stop/adaptive flags, validation scores scripted so that selection lands on the '
                 'first / a middle / the last loop iterate / the final refit (25% real scores); every case is distinct by construction')
-    run.assumptions = ['rows pairwise distinct, lambda > 0 (property quantifier)', 'positive semi-definiteness of K: proved for the Laplace / product / Lpq kernels with 0<q<=p<=2 (ridge_exists_unique_*), an hypothesis of ridge_unique for the sum-power kernel',
+    run.assumptions = ['rows pairwise distinct, lambda > 0 (property quantifier)', 'positive semi-definiteness of K: proved for the Laplace / product / Lpq kernels with 0<q<=p<=2 (ridge_exists_unique_*), and for the sum-power kernel with a natural power; an hypothesis of ridge_unique for a non-integer power',
                        'torch.linalg.solve/cholesky/lu are modelled (exact solve), checked through the residual']
     run.lean()
     cases = gen_cases(run)
